@@ -531,3 +531,33 @@ func GenNoComp(r *rand.Rand) *Scenario {
 	sc.Writers = append(sc.Writers, stop)
 	return sc
 }
+
+// GenPinnedStops builds a scenario of the pinned "concurrent Stops" family:
+// rerunner 0's HoldRun-th run (1..3) parks inside the compute function, 2-4
+// Stops are issued from different goroutines in the forced order described at
+// RR.PinnedStops; optionally a second ordinary rerunner shares the cell.
+func GenPinnedStops(r *rand.Rand) *Scenario {
+	sc := &Scenario{Name: "pinned-stops", Cells: 1 + r.Intn(2)}
+	sc.YieldSeed = r.Int63()
+	sc.Intensity = []int{0, 0, 20}[r.Intn(3)]
+	sc.ParallelEnd = r.Intn(2) == 0
+	hold := 1 + r.Intn(3)
+	p := &PNode{Name: "p0", Leaves: []int{0}}
+	if r.Intn(3) == 0 {
+		p.Kids = []*PNode{{Name: "c", Key: "c", Leaves: []int{0}}}
+	}
+	sc.RRs = append(sc.RRs, &RRSpec{Plan: p, Spawn: r.Intn(2) == 0, MinInterval: 200 + r.Intn(300), HoldRun: hold})
+	if r.Intn(2) == 0 {
+		sc.RRs = append(sc.RRs, &RRSpec{Plan: &PNode{Name: "p1", Leaves: []int{0}}, Spawn: r.Intn(2) == 0, MinInterval: 200 + r.Intn(300)})
+	}
+	var ops []Op
+	for i := 1; i < hold; i++ {
+		ops = append(ops, Op{Kind: "await-ok", RR: 0, US: i}, Op{Kind: "write", Cell: 0, Style: styleFor(r)})
+	}
+	ops = append(ops, Op{Kind: "pinned-stops", RR: 0, US: 2 + r.Intn(3)})
+	if r.Intn(2) == 0 {
+		ops = append(ops, Op{Kind: "write", Cell: 0, Style: styleFor(r)})
+	}
+	sc.Writers = [][]Op{ops}
+	return sc
+}
